@@ -43,6 +43,9 @@ func match(filter CompFilter, comp *ical.Component) (bool, error) {
 	if comp.Name != filter.Name {
 		return filter.IsNotDefined, nil
 	}
+	if filter.IsNotDefined {
+		return false, nil
+	}
 
 	var zeroDate time.Time
 	if filter.Start != zeroDate {
@@ -78,6 +81,16 @@ func match(filter CompFilter, comp *ical.Component) (bool, error) {
 func matchCompFilter(filter CompFilter, comp *ical.Component) (bool, error) {
 	var matches []*ical.Component
 
+	if filter.IsNotDefined {
+		// holds iff no component of that name exists
+		for _, child := range comp.Children {
+			if child.Name == filter.Name {
+				return false, nil
+			}
+		}
+		return true, nil
+	}
+
 	for _, child := range comp.Children {
 		match, err := match(filter, child)
 		if err != nil {
@@ -97,6 +110,9 @@ func matchPropFilter(filter PropFilter, comp *ical.Component) (bool, error) {
 	field := comp.Props.Get(filter.Name)
 	if field == nil {
 		return filter.IsNotDefined, nil
+	}
+	if filter.IsNotDefined {
+		return false, nil
 	}
 
 	for _, paramFilter := range filter.ParamFilter {
